@@ -86,7 +86,7 @@ func drawStoreCfg(t *sim.Tape, persistent, generousIndex bool) *storeCfg {
 		c.GetAtt = uint32(1 + t.Choose(8))
 		c.PutAtt = 1 + t.Choose(16)
 	}
-	c.MinEpoch = []time.Duration{5 * time.Second, time.Second, 60 * time.Second, 300 * time.Second}[t.Choose(4)]
+	c.MinEpoch = []time.Duration{5 * time.Second, time.Second, 60 * time.Second, 300 * time.Second, 1500 * time.Millisecond, 900 * time.Millisecond}[t.Choose(6)]
 	c.RetryIvl = 10 * time.Second
 	return c
 }
@@ -505,12 +505,24 @@ type media struct {
 func newMedia(cfg *storeCfg) *media {
 	m := &media{}
 	if cfg.Disk {
-		m.data = sim.NewDisk("data", cfg.SectorSize, int64(cfg.BlockSectors*cfg.BlockCount()))
+		sectors := cfg.BlockSectors * cfg.BlockCount()
+		if cfg.WConfig && cfg.BlockCount() > 1 {
+			// a device whose sector count is not a multiple of the number of
+			// blocks: the configuration code has to round the block size down
+			sectors += cfg.BlockCount() - 1
+		}
+		m.data = sim.NewDisk("data", cfg.SectorSize, int64(sectors))
 	}
 	if cfg.IndexDev {
 		// index device: records of 66 bytes; sector size of the index device
 		// follows the data device's
-		bytes := cfg.IndexSlots * local.BlockDeviceBackedLocationRecordSize
+		slots := cfg.IndexSlots
+		if cfg.WConfig {
+			// room for one record more than the (prime) number of slots: the
+			// configuration code has to round the table size down to a prime
+			slots++
+		}
+		bytes := slots * local.BlockDeviceBackedLocationRecordSize
 		secs := (bytes + cfg.SectorSize - 1) / cfg.SectorSize
 		m.index = sim.NewDisk("index", cfg.SectorSize, int64(secs))
 	}
